@@ -111,6 +111,25 @@ func resolveDeadline(p *Prog) *dlRoles {
 			}
 		}
 	}
+	if r.stStarted < 0 && r.stExceeded > 0 {
+		// the state the callback requires before it signals: the constant it compares the state with
+		instrsOfU(r.Timeout, func(in ssa.Instruction) {
+			b, ok := in.(*ssa.BinOp)
+			if !ok || (b.Op != token.EQL && b.Op != token.NEQ) {
+				return
+			}
+			var k int64
+			var okc bool
+			if isFieldLoad(b.X, r.T, r.state) {
+				k, okc = constInt(b.Y)
+			} else if isFieldLoad(b.Y, r.T, r.state) {
+				k, okc = constInt(b.X)
+			}
+			if okc && k != r.stExceeded && k != 0 {
+				r.stStarted = k
+			}
+		})
+	}
 	if r.stExceeded < 0 || r.stStarted < 0 || r.stExceeded == r.stStarted || r.stStarted == 0 || r.stExceeded == 0 {
 		miss("state constants could not be resolved (started=%d exceeded=%d)", r.stStarted, r.stExceeded)
 	}
@@ -227,6 +246,7 @@ func (r *dlRoles) walk(f *ssa.Function, path upath) dlPath {
 	loadVal := map[ssa.Value]int64{} // state loads -> abstract value at load time (-1 entry)
 	pendLoadEpoch := map[ssa.Value]int{}
 	pendEpoch := 0
+	timerWritten := false
 	var stopVal ssa.Value
 	effects := 0
 	var pendZeroAfterDec *bool
@@ -289,6 +309,8 @@ func (r *dlRoles) walk(f *ssa.Function, path upath) dlPath {
 				if _, ok := res(x.Val).(*ssa.Parameter); ok {
 					s.deadlineSet = true
 				}
+			case isFieldStore(x, r.T, r.timer):
+				timerWritten = true
 			}
 		case *ssa.Call:
 			switch {
@@ -358,6 +380,13 @@ func (r *dlRoles) walk(f *ssa.Function, path upath) dlPath {
 		}
 		if cm, ok := normCmp(cond, val); ok {
 			cm.X, cm.Y = res(cm.X), res(cm.Y)
+			// "no timer was ever created" excludes the started entry state: the state is set to started only together
+			// with arming the timer (rule on the outcome by argument class) and the timer field is never cleared
+			// (checked with the timer rules), so started implies a timer
+			if cm.Op == token.EQL && !timerWritten && ((isFieldLoad(cm.X, r.T, r.timer) && isNilConst(cm.Y)) || (isFieldLoad(cm.Y, r.T, r.timer) && isNilConst(cm.X))) {
+				s.entry[r.stStarted] = false
+				continue
+			}
 			// state comparisons
 			var ld ssa.Value
 			var k int64
@@ -642,6 +671,11 @@ func deadlineRules(c *Ctx, prefix string) {
 			continue
 		}
 		instrsOf(f, func(in ssa.Instruction) {
+			if st, ok := in.(*ssa.Store); ok && isFieldStore(st, r.T, r.timer) && isNilConst(st.Val) {
+				o8.Fail(in.Pos(), "the timer field is cleared in %s: 'started implies a timer exists' no longer holds (Set would skip Stop for a running timer)", fname(f))
+			}
+		})
+		instrsOf(f, func(in ssa.Instruction) {
 			cl, ok := in.(*ssa.Call)
 			if !ok {
 				return
@@ -675,11 +709,43 @@ func deadlineRules(c *Ctx, prefix string) {
 			if isIn(f, r.Set) || f == r.Set {
 				// time.Until(t), possibly computed ahead and joined with the 0 of the "no deadline" case
 				okAll, nUntil := true, 0
-				for _, lf := range phiLeaves(dv) {
-					lf = origin(lf)
+				var leaves []ssa.Value
+				var expand func(v ssa.Value, d int)
+				expand = func(v ssa.Value, d int) {
+					for _, lf := range phiLeaves(origin(v)) {
+						lf = origin(lf)
+						var hc *ssa.Call
+						hidx := 0
+						switch x := lf.(type) {
+						case *ssa.Call:
+							hc = x
+						case *ssa.Extract:
+							hc, _ = x.Tuple.(*ssa.Call)
+							hidx = x.Index
+						}
+						if hc != nil && helperCallee(hc) != nil && d < 3 {
+							// a pure helper that computes (state, remaining time): what it can return
+							withSite(hc, func() {
+								for _, rv := range returnedValues(helperCallee(hc), hidx) {
+									expand(rv, d+1)
+								}
+							})
+							continue
+						}
+						leaves = append(leaves, lf)
+					}
+				}
+				expand(dv, 0)
+				for _, lf := range leaves {
 					if u, ok := lf.(*ssa.Call); ok && callName(u) == "time.Until" && len(r.Set.Params) > 1 && sameOrigin(u.Call.Args[0], ssa.Value(r.Set.Params[1])) {
 						nUntil++
 						continue
+					}
+					if u, ok := lf.(*ssa.Call); ok && callName(u) == "(time.Time).Sub" && len(r.Set.Params) > 1 && sameOrigin(u.Call.Args[0], ssa.Value(r.Set.Params[1])) {
+						if nw, ok := origin(u.Call.Args[1]).(*ssa.Call); ok && callName(nw) == "time.Now" {
+							nUntil++ // t.Sub(time.Now()) is time.Until(t)
+							continue
+						}
 					}
 					if k, isC := constInt(lf); isC && k == 0 {
 						continue
@@ -701,12 +767,15 @@ func deadlineRules(c *Ctx, prefix string) {
 	}
 	// Err reports exceeded iff state == exceeded
 	o7 := c.Obl(prefix+"7", fname(r.Err), "Err returns DeadlineExceeded exactly on the state==exceeded edge", 1)
+	errPaths, okEP := enumPathsU(r.Err, 200)
+	if !okEP {
+		o7.Undecide("the paths of Err could not be enumerated")
+	}
+	tableDone := false
 	for _, ret := range findInstrs(r.Err, isReturn) {
 		if r.Err.Recover != nil && ret.Block() == r.Err.Recover {
 			continue
 		}
-		exceeded := hasFact(ret, func(f fact) bool { return r.stateFact(f, r.stExceeded, true) })
-		notExc := hasFact(ret, func(f fact) bool { return r.stateFact(f, r.stExceeded, false) })
 		var vals []ssa.Value
 		for _, in := range ret.Block().Instrs {
 			if st, ok := in.(*ssa.Store); ok {
@@ -723,6 +792,7 @@ func deadlineRules(c *Ctx, prefix string) {
 			if ld, ok := origin(vals[0]).(*ssa.UnOp); ok && ld.Op == token.MUL {
 				if ia, ok := ld.X.(*ssa.IndexAddr); ok {
 					if g, ok := ia.X.(*ssa.Global); ok && isFieldLoad(strip(ia.Index), r.T, r.state) {
+						tableDone = true
 						tbl, size, okT := globalTable(p, g)
 						if !okT {
 							o7.Undecide("Err reads %s[state], which is not a table filled once by the package initialiser", g.Name())
@@ -743,19 +813,88 @@ func deadlineRules(c *Ctx, prefix string) {
 								o7.Fail(ret.Pos(), "the table reports an error in state %s", r.stName(st))
 							}
 						}
-						continue
 					}
 				}
 			}
 		}
-		for _, v := range vals {
-			isNil := isNilConst(v)
-			o7.Site(ret.Pos(), "returns nil=%v exceededEdge=%v", isNil, exceeded)
-			if isNil && !notExc {
+	}
+	if !tableDone {
+		// path by path (helpers such as state.err() / state.exceeded() inlined): the value returned against what the
+		// path has established about the state
+		seen7 := map[string]bool{}
+		for pi := range errPaths {
+			pt := &errPaths[pi]
+			ret, isRet := pt.last().(*ssa.Return)
+			if !isRet || ret.Parent() != r.Err {
+				continue
+			}
+			e := errorOperand(ret)
+			if e == nil {
+				continue
+			}
+			rv := pt.value(e)
+			isNil := isNilConst(rv)
+			exceeded, notExc := false, false
+			for _, ft := range pt.Conds {
+				at := len(pt.Instrs) - 1
+				if ft.If != nil {
+					if k := pt.indexOf(ft.If); k >= 0 {
+						at = k
+					}
+				}
+				cm, ok := normCmp(ft.Cond, ft.Val)
+				if !ok {
+					continue
+				}
+				x, y := pt.valueAt(cm.X, at), pt.valueAt(cm.Y, at)
+				var cst int64
+				var okc bool
+				if isFieldLoad(x, r.T, r.state) {
+					cst, okc = constInt(y)
+				} else if isFieldLoad(y, r.T, r.state) {
+					cst, okc = constInt(x)
+				}
+				if !okc || cst != r.stExceeded {
+					continue
+				}
+				if cm.Op == token.EQL {
+					exceeded = true
+				}
+				if cm.Op == token.NEQ {
+					notExc = true
+				}
+			}
+			key := fmt.Sprintf("%v %v %v", isNil, exceeded, notExc)
+			if !seen7[key] {
+				seen7[key] = true
+				o7.Site(ret.Pos(), "returns nil=%v exceededEdge=%v", isNil, exceeded)
+			}
+			if isNil && !notExc && !seen7["f1"] {
+				seen7["f1"] = true
 				o7.Fail(ret.Pos(), "Err returns nil on a path where state may be exceeded")
 			}
-			if !isNil && !exceeded {
+			if !isNil && !exceeded && !seen7["f2"] {
+				seen7["f2"] = true
 				o7.Fail(ret.Pos(), "Err returns an error on a path where state is not known to be exceeded")
+			}
+			if !isNil && exceeded && !isGlobalErrValue(rv, "context", "DeadlineExceeded") {
+				// a package variable aliasing the sentinel
+				okAlias := false
+				if ld, ok := rv.(*ssa.UnOp); ok && ld.Op == token.MUL {
+					if g, ok := ld.X.(*ssa.Global); ok && g.Pkg != nil {
+						if ini := g.Pkg.Func("init"); ini != nil {
+							instrsOf(ini, func(in ssa.Instruction) {
+								if st, ok := in.(*ssa.Store); ok && st.Addr == ssa.Value(g) && isGlobalErrValue(st.Val, "context", "DeadlineExceeded") {
+									okAlias = true
+								}
+							})
+						}
+					}
+				}
+				if !okAlias && !seen7["f3"] {
+					seen7["f3"] = true
+					o7.Fail(ret.Pos(), "Err reports something else than context.DeadlineExceeded in the exceeded state")
+				}
 			}
 		}
 	}
